@@ -400,7 +400,8 @@ class NetWorld(World):
         if virtual and self._shares_object(a, b) and not op.get("twice"):
             # precondition of the default generator (finding F6)
             raise Skip()
-        if virtual and self._shares_object(a, b):
+        shared = virtual and self._shares_object(a, b)
+        if shared:
             self.stats.probe("same_object_twice_on_purpose")
         if not self._compatible(a, list(b.tensor_map.values())):
             raise Skip()
@@ -426,7 +427,9 @@ class NetWorld(World):
         r = a if inplace else res
         if not inplace:
             self._add_net(r)
-        if how == "atn_nocheck" or (a is b):
+        if how == "atn_nocheck" or (a is b) or shared:
+            # (one tensor object held by both operands of a virtual combine
+            # cannot carry two names: its bonds coincide by construction)
             return
         # combine rules: tensors of `a` come first in the result, then `b`'s
         ts = list(r.tensor_map.values())
